@@ -136,6 +136,24 @@ def call_site_styles(S):
                             if all(isinstance(v, str) for v in vals):
                                 alts.append(tuple(vals))
                     if alts and len(alts) == len(rvs):
+                        # two alternatives assigned on the arms of one `if <bool local>`: tie the choice to that local, which other
+                        # fields of the same style may depend on as well (`delim` and `tight_delim` both follow `is_explicit`)
+                        if len(alts) == 2:
+                            arms = {}
+                            for bid, blk in fn.blocks.items():
+                                for st in blk.stmts:
+                                    if st.kind == 'assign' and not st.place.proj and st.place.local == pl.local and st.rv.kind == 'tuple':
+                                        vals = tuple(const_of(o) for o in st.rv.a)
+                                        arms[bid] = vals
+                            if len(arms) == 2:
+                                for bid, blk in fn.blocks.items():
+                                    t = blk.term
+                                    if t is not None and t.kind == 'switch' and t.targets and len(t.targets) == 1 and t.otherwise is not None:
+                                        (val0, tgt0), = list(t.targets.items()) if isinstance(t.targets, dict) else [tuple(x) for x in t.targets]
+                                        if {tgt0, t.otherwise} == set(arms) and val0 == 0:
+                                            cond = const_of(t.op)
+                                            if isinstance(cond, tuple) and cond and cond[0] in ('sym', 'not'):
+                                                return ('alts_by', cond, arms[t.otherwise], arms[tgt0])      # (condition, value if true, value if false)
                         return ('alts', tuple(alts))
                     return ('sym', pl.local)
                 # never assigned by a statement: parameter or call result -> one symbolic value per local
@@ -269,12 +287,23 @@ def explore(S, K, want=('C04', 'C05', 'C06'), cats=None, between_items=False):
             sepv = sfields['separator'] if sfields['separator'] is not None else ','
             sep = Str.lit(sepv) if ctx.branch(use_sep) else Str(())
             dv = sfields['delim']
-            if isinstance(dv, tuple) and dv and dv[0] == 'alts':
+            if isinstance(dv, tuple) and dv and dv[0] == 'alts_by':
+                x = dv[1]
+                neg = False
+                while x[0] == 'not':
+                    x = x[1]
+                    neg = not neg
+                cond_b = z3.Bool('local_%d' % x[1])
+                taken = ctx.branch(z3.Not(cond_b) if neg else cond_b)
+                dl = dv[2] if taken else dv[3]
+            elif isinstance(dv, tuple) and dv and dv[0] == 'alts':
                 dl = dv[1][ctx.choose([z3.Int('delim_alt') == i for i in range(len(dv[1]))])]
             elif isinstance(dv, tuple) and len(dv) == 2 and all(isinstance(x, str) for x in dv):
                 dl = dv
             else:
                 dl = ('(', ')')
+            if dl[0] == '' and 'item' not in combo:
+                return            # a delimiter-less list (a row of math arguments) exists only around at least one item
             style = Agg('ListStyle', None, (sep, tup(Str.lit(dl[0]), Str.lit(dl[1]))) + tuple(sty_flags), STYLE_FIELDS)
 
             def describe(mdl):
@@ -402,6 +431,9 @@ def corpus(nl='\n'):
         ('args', '#f(%s)\n'), ('array', '#(%s)\n'), ('dict', '#(k: %s)\n'), ('params', '#let f(%s) = 1\n'), ('destruct', '#let (%s) = x\n'),
         ('import', '#import "m.typ": %s\n'), ('inline-eq', 'a $%s$ b\n'), ('block-eq', '$ %s $\n'), ('inline-args', 'text #f(%s) more\n'),
         ('math-args', '$ f(%s) $\n'), ('strong-args', '*b #f(%s)*\n'), ('closure', '#let g = (%s) => 1\n'),
+        # the same lists inside another list that may be laid out flat (an enclosing flat group turns optional breaks into blanks)
+        ('inline-eq', '#f($%s$)\n'), ('array', '#f((%s))\n'), ('args', '#f(g(%s))\n'), ('inline-eq', '#($%s$, 1)\n'), ('dict', '#f((k: %s))\n'),
+        ('params', '#f((%s) => 1)\n'), ('destruct', '#f({ let (%s) = x })\n'), ('math-args', '#f($g(%s)$)\n'),
     ]
     bodies = ['x// c\n', 'x // c\n', '// c\nx', 'x, // c\ny', 'x // c\n, y', 'x, y // c\n', 'x /* c */', '/* c */ x', 'x, /* c */ y', '\n// c\nx\n', 'x\n// c\n',
               'x,// c\n', 'x /* a */ // c\n', '// c\n', '/* c */']
